@@ -261,7 +261,8 @@ AGG = {'sum': (np.nansum, sum), 'min': (np.nanmin, min), 'max': (np.nanmax, max)
 @st.composite
 def pivot_cases(draw):
     opts = {'two_index': draw(st.booleans()), 'use_columns': draw(st.booleans()), 'two_data': draw(st.booleans()),
-            'func': draw(st.sampled_from(['default', 'sum', 'min', 'max', 'len', 'std', 'map'])),
+            'func': draw(st.sampled_from(['sum', 'default', 'min', 'max', 'map', 'sum', 'min', 'max', 'default', 'map', 'len', 'std'])),  # (len / std meet two listed findings: 1 in 6)
+            'tree': draw(st.integers(0, 4)) < 4,
             'fill': draw(st.sampled_from([float('nan'), 0, 'ff', None])), 'consolidate': draw(st.booleans())}  # decisive choices first
     n = draw(st.sampled_from([5, 3, 8, 1, 2, 4, 6, 7]))
     ik = draw(st.lists(st.sampled_from(['i0', 'i1', 'i2']), min_size=n, max_size=n))
@@ -269,7 +270,12 @@ def pivot_cases(draw):
     ik2 = draw(st.lists(st.integers(0, 1), min_size=n, max_size=n))
     d0 = draw(st.lists(st.integers(-9, 9), min_size=n, max_size=n))
     d1 = draw(st.lists(st.sampled_from([0.5, 1.5, -2.0, 4.0]), min_size=n, max_size=n))
-    return dict({'n': n, 'ik': ik, 'ck': ck, 'ik2': ik2, 'd0': d0, 'd1': d1}, **opts)
+    if opts['tree'] and opts['two_index']:
+        # rows ordered so that the (index field, second index field) combinations appear in tree order: several index
+        # fields in another order are a listed finding (the constructor rejects the derived labels)
+        order = sorted(range(n), key=lambda q: (ik[q], ik2[q]))
+        ik, ck, ik2, d0, d1 = ([x[q] for q in order] for x in (ik, ck, ik2, d0, d1))
+    return dict({'n': n, 'ik': list(ik), 'ck': list(ck), 'ik2': list(ik2), 'd0': list(d0), 'd1': list(d1)}, **opts)
 
 
 def check_pivot(case):
@@ -356,7 +362,7 @@ def _close(a, b):
 
 @st.composite
 def join_cases(draw):
-    opts = {'kind': draw(st.sampled_from(['inner', 'left', 'right', 'outer'])), 'composite': draw(st.booleans()),
+    opts = {'kind': draw(st.sampled_from(['inner', 'left', 'right', 'outer'])), 'composite': draw(st.integers(0, 4)) < 4,  # (non-composite joins are a listed finding: 1 in 5)
             'index_overlap': draw(st.sampled_from(['same', 'disjoint', 'partial'])), 'fill': draw(st.sampled_from([float('nan'), -1, 'ff', None])),
             'template': draw(st.booleans()), 'key_in_index': draw(st.sampled_from(['none', 'none', 'left', 'right'])), 'consolidate': draw(st.booleans()),
             'str_payload': draw(st.booleans())}  # decisive choices first
